@@ -325,7 +325,7 @@ impl InstructionIR {
                 };
 
                 qasm_instructions.push(QasmInstruction::GateDeclaration(format!(
-                    "{}U({:.3},{:.3},{:.3}) {}q[{}]; // {}",
+                    "{}U({},{},{}) {}q[{}]; // {}",
                     ctrl_qasm_str, theta, phi, lambda, ctrl_operands_str, target_idx, full_comment
                 )));
             }
